@@ -30,6 +30,9 @@ pub struct SoloCfg {
     /// a few INVALID messages (forged in the node's own name, carrying unsigned certificates,
     /// below-quorum TC): they must have no effect, and the monitors must stay silent
     pub with_invalid: bool,
+    /// blocks of rounds 1-2 also exist in a variant whose payload batch is NOT in the store;
+    /// the batch arrives as a separate event (payload-resumed processing path)
+    pub with_payload: bool,
 }
 
 pub struct Uni2 {
@@ -72,8 +75,11 @@ pub fn craft_children(s: &Search, sc: &SoloCfg, u: &mut Uni2) -> bool {
                     }
                 }
                 for tc in tcs {
-                    let b = w.block(leader, r, qc.clone(), tc, Vec::new());
+                    let b = w.block(leader, r, qc.clone(), tc.clone(), Vec::new());
                     new_blocks.push(b);
+                    if sc.with_payload && r <= 2 {
+                        new_blocks.push(w.block(leader, r, qc.clone(), tc, vec![super::node::payload_digest(0)]));
+                    }
                 }
             }
         }
@@ -99,6 +105,9 @@ pub fn menu(s: &Search, sc: &SoloCfg, u: &Uni2, stale_blocks: &[Block]) -> Vec<E
     let t = sc.node;
     let others: Vec<usize> = (0..w.n()).filter(|i| *i != t).collect();
     let mut evs: Vec<Ev> = vec![Ev::Timer];
+    if sc.with_payload {
+        evs.push(Ev::Batch(0));
+    }
     let mut push = |m: ConsensusMessage, evs: &mut Vec<Ev>| {
         let id = s.uni.intern(m);
         let e = Ev::Deliver(id);
@@ -277,7 +286,7 @@ pub fn run(rep: &mut Report, property: &str, cfgname: &str, sc: SoloCfg) {
         let replay = json!({
             "engine": "solo", "config": cfg.name, "kind": "local", "node": rec.node,
             "events": rec.history.iter().map(|e| s.describe_ev(e)).collect::<Vec<_>>(),
-            "events_raw": rec.history.iter().map(|e| match e { Ev::Timer => "timer".to_string(), Ev::Deliver(m) => crate::util::hex(&s.uni.msg(*m).bytes) }).collect::<Vec<_>>(),
+            "events_raw": rec.history.iter().map(|e| s.raw_ev(e)).collect::<Vec<_>>(),
         });
         rep.violation(sig.clone(), format!("[{}] {}", cfg.name, f.what), replay);
     }
@@ -300,7 +309,7 @@ pub fn run(rep: &mut Report, property: &str, cfgname: &str, sc: SoloCfg) {
     let mut prev: Vec<serde_json::Value> = rep.coverage.get("solo_configs").and_then(|v| v.as_array().cloned()).unwrap_or_default();
     prev.push(json!({"config": cfg.name, "local_states": states, "edges": edges_total, "universe_blocks": u.blocks.len(),
         "completed": capped.is_none(), "cap_hit": capped, "witnesses": serde_json::Value::Object(wit),
-        "max_depth": sc.max_depth, "level_sizes": level_sizes, "stale_tc_variants": sc.stale_variants, "tc_messages": sc.with_tcs, "votes": sc.with_votes, "timeouts_and_tcs": sc.with_timeouts}));
+        "max_depth": sc.max_depth, "level_sizes": level_sizes, "stale_tc_variants": sc.stale_variants, "payload_variants": sc.with_payload, "invalid_messages": sc.with_invalid, "tc_messages": sc.with_tcs, "votes": sc.with_votes, "timeouts_and_tcs": sc.with_timeouts}));
     rep.set("solo_configs", serde_json::Value::Array(prev));
     if capped.is_some() {
         rep.set("exhaustive", json!(false));
@@ -322,5 +331,6 @@ pub fn default_cfg(node: usize, r: Round, tier: Tier) -> SoloCfg {
         max_depth: tier.pick(4, 6),
         with_tcs: true,
         with_invalid: true,
+        with_payload: false,
     }
 }
